@@ -316,11 +316,14 @@ def r5(ctx):
 @rule("R-C12-6", min_instances=2, title="_socket.send performs one successful transport write per call and returns its count")
 def r6(ctx):
     def mr(name, node, run):
-        if name == "sock.send":
-            return ["ssl.SSLWantWriteError"]
+        # one refusal ("cannot write just now"), then the transport accepts
+        if name == "sock.send" and not any(e.name == "sock.send" and "@raised" in e.kwargs for e in run.effects):
+            return ["ssl.SSLWantWriteError", ("builtins.BlockingIOError", (C(11), C("Resource temporarily unavailable")))]
         return []
 
-    I = Interp(ctx.index, Config(stubs=dict(BASE_STUBS), may_raise=mr))
+    st = dict(BASE_STUBS)
+    st["sock.gettimeout"] = lambda I, run, a, k, n: Sym("timeout")
+    I = Interp(ctx.index, Config(stubs=st, may_raise=mr))
     q = "_socket:send"
 
     def body(run):
@@ -341,6 +344,28 @@ def r6(ctx):
             bad = bad or (good_writes, v, o)
     if n == 0:
         raise AnalysisError("_socket.send has no returning path")
+    # a single want-write / would-block on a transport with a timeout is waited out, not raised into the middle of a frame
+    esc = None
+    nref = 0
+    for o in outs:
+        refused = [e for e in o.effects if e.name == "sock.send" and "@raised" in e.kwargs]
+        if not refused:
+            continue
+        tf = o.run.facts.get(Sym("timeout").key())
+        nonblocking = tf is not None and tf.eq == C(0)
+        if nonblocking:
+            continue  # timeout 0: the caller asked for non-blocking behaviour, the refusal is its answer
+        nref += 1
+        if o.kind == "raise" and (o.exc_class or "").split(".")[-1] in ("SSLWantWriteError", "BlockingIOError"):
+            esc = esc or o
+    if nref == 0:
+        raise AnalysisError("no refused write explored")
+    if esc is None:
+        ctx.ob(f"{q}:single-refusal-is-waited-out", True, f"{nref} paths: the write is retried after waiting for writability", ctx.index.loc(ctx.index.func(q).node))
+    else:
+        ctx.ob(f"{q}:single-refusal-is-waited-out", False,
+               f"the transport refuses one write with {esc.exc_class.split('.')[-1]} (timeout not 0): send() raises it instead of waiting and writing again -- "
+               f"the frame is left cut short on the wire and the next frame starts inside it", esc.raise_loc or ctx.index.loc(ctx.index.func(q).node), {"path": path_text(esc)})
     ctx.ob(f"{q}:one-write-count-returned", bad is None,
            f"{n} returning paths: at most one accepted write, its count returned (None when the socket was not writable)" if bad is None else
            f"a path performs {len(bad[0])} accepted writes and returns {bad[1]!r}", ctx.index.loc(ctx.index.func(q).node),
@@ -472,3 +497,39 @@ def r8(ctx):
                f"{n} schedules over {len(points)} preemption points: the wire carries whole frames in some serial order" if bad is None else
                f"a second thread sending at {bad[1]} yields the write order {bad[0]} (A = first thread's pieces, B = second thread's): frames interleave on the wire",
                bad[1] if bad else loc, {"order": bad[0], "path": path_text(bad[2], 12)} if bad else None)
+
+
+SHARED_ON_PURPOSE = {
+    ("_app", "setReconnect"): "documented process-wide default reconnect interval",
+    ("_handshake", "handshake_response.__init__"): "the process-wide cookie jar (C20) is fed by every handshake response",
+    ("_logging", "enableTrace"): "process-wide trace switch",
+    ("_socket", "setdefaulttimeout"): "documented process-wide default timeout",
+}
+
+
+@rule("R-C12-9", min_instances=5, title="no hidden sharing: apart from four documented process-wide settings, no function writes class-level or module-level mutable state (a frame under construction, a TLS context, ... must belong to one connection / one call)")
+def r9(ctx):
+    import ast as _ast
+    from ..shared_state import shared_writes
+    idx = ctx.index
+    seen = set()
+    for mod, mi in sorted(idx.modules.items()):
+        if mod in ("_wsdump", "__init__"):
+            continue
+        writes = shared_writes(mi.tree)
+        per_fn = {}
+        for fnq, line, what in writes:
+            per_fn.setdefault(fnq, []).append((line, what))
+        for fnq, lst in per_fn.items():
+            seen.add((mod, fnq))
+            ok = (mod, fnq) in SHARED_ON_PURPOSE
+            ctx.ob(f"{mod}:{fnq}:writes-shared-state", ok, f"{lst[0][1]} -- {SHARED_ON_PURPOSE.get((mod, fnq), '')}" if ok else
+                   f"{mod}.{fnq} {lst[0][1]} (line {lst[0][0]}): state shared by every object / call is written without any lock -- two threads (or two connections) "
+                   f"using the library at once overwrite each other's data", f"{mi.path}:{lst[0][0]}")
+    missing = set(SHARED_ON_PURPOSE) - seen
+    if missing:
+        raise AnalysisError(f"anchor vanished: the process-wide settings {sorted(missing)} are no longer written where they were confirmed")
+    # positive control for the zero-count part
+    probe = _ast.parse("class F:\n _buf = bytearray()\n def fmt(self):\n  b = F._buf\n  del b[:]\n  b += b'x'\n  return bytes(b)\n")
+    ctx.ob("control:shared-buffer-pattern-matches", len(shared_writes(probe)) >= 2, "embedded violating snippet is recognised", "")
+
